@@ -64,6 +64,8 @@ def jobs(tier):
     for f in FIELDS:
         out.append(("hist2.%s" % f, "job_history", dict(version=3 if f != "announce" else 1, steps=[[f], [f]], route="lib")))
     out.append(("hist2.comment>announce", "job_history", dict(version=2, steps=[["comment"], ["announce"]], route="lib")))
+    out.append(("hist2.source>url-list", "job_history", dict(version=1, steps=[["source"], ["url-list"]], route="lib")))
+    out.append(("hist2.private>httpseeds", "job_history", dict(version=3, steps=[["private"], ["httpseeds"]], route="lib")))
     out.append(("hist2.private>comment.cli", "job_history", dict(version=1, steps=[["private"], ["comment"]], route="cli")))
     if not q:
         out.append(("hist3.announce.url-list", "job_history", dict(version=3, steps=[["announce"], ["url-list", "announce"], ["announce"]], route="lib")))
@@ -221,10 +223,20 @@ def job_history(E, version, steps, route, _mutants=None):
         if route == "cli" and "private" not in kinds:
             kinds["private"] = "false"
         req = ew.request(E, kinds, tag=str(i))
+        from symx.loader import ben_copy, ben_equal
+        prev = ew.file_obj(fs)
+        prev_info = ben_copy(prev["info"]) if isinstance(prev, dict) else None
         ok, ex = do_edit(E, w, route, req)
         if not ok:
             judge_exception(E, ex, req, "C07.hist")
             return
+        now = ew.file_obj(fs)
+        if prev_info is not None and isinstance(now, dict) and all(
+                f in ew.TOP or Expect(f, v, cli=route == "cli").outcome()[0] == Expect.UNTOUCHED for f, v in req.items()):
+            # a step that names only trackers / seeds: the info dictionary (hence the info-hash) is what the previous step left
+            E.check(ben_equal(prev_info, now.get("info")), "C07.hist.step-info-hash-unchanged",
+                    "step %d named only %r but the info dictionary differs from the one the previous step wrote (keys %r -> %r)"
+                    % (i, sorted(req), list(prev_info), list(now.get("info", {}))))
         for f, v in req.items():
             ex_ = Expect(f, v, cli=route == "cli")
             if ex_.outcome()[0] != Expect.UNTOUCHED:
@@ -428,7 +440,9 @@ def replay(params, model, notes, workdir, seed):
     mods = cr.real_torrentfile()
     import io
     import contextlib
+    step_bad = []
     for req in reqs:
+        raw_prev = refconc.raw_info_bytes(open(mpath, "rb").read())
         try:
             with contextlib.redirect_stdout(io.StringIO()):
                 if route == "lib":
@@ -442,9 +456,12 @@ def replay(params, model, notes, workdir, seed):
             if any(isinstance(v, str) and v.strip() == "" and v != "" for v in req.values()):
                 return []
             return ["C07.no-exception: %s: %s" % (type(ex).__name__, ex)]
+        named_info = [f for f, v in req.items() if f in ew.INFO and not (v is None or (f == "private" and v is False))]
+        if "steps" in params and not named_info and refconc.raw_info_bytes(open(mpath, "rb").read()) != raw_prev:
+            step_bad.append("C07.hist.step-info-hash-unchanged")
     after = pyben.load(mpath)
     bad = ["C07." + b for b in conc_check(before, after, reqs, route == "cli")]
-    return bad
+    return bad + step_bad
 
 
 def canaries(tier):
